@@ -536,7 +536,7 @@ def generate(ctx: Ctx) -> List[Case]:
         jobs.append((f"r{i}", rand_schedule(rng, rng.randrange(4, 30))))
         i += 1
     # description-conversion stream: random documents through the cache (and the tree-level model)
-    for _ in range(12000 if big else 1500):
+    for _ in range(12000 if big else 1000):
         jobs.append((f"d{i}", doc_schedule(rng)))  # type: ignore[arg-type]
         i += 1
     if len(jobs) > 20000:
